@@ -326,7 +326,8 @@ class C05(Family):
     prop = "C05"
     # source-text tie (DESIGN 2.5): Generated/CommonTimebase.lean is rewritten from /repo's
     # control/iosys.py on every run and proved equal to the model `common`
-    extra_modules = ["CtrlVerif.Props.C05Gen", "CtrlVerif.Props.C05Tree"]
+    extra_modules = ["CtrlVerif.Props.C05Gen", "CtrlVerif.Props.C05Tree", "CtrlVerif.Props.C05Pred",
+                     "CtrlVerif.Props.C05PredUses"]
 
     def pre_build(self):
         import os
@@ -335,7 +336,10 @@ class C05(Family):
         problems, self.gen_info = py2lean.regenerate(repo, leanproj.LEAN)
         p2, i2 = py2lean.regenerate_dtkw(repo, leanproj.LEAN)
         self.gen_info.update(i2)
-        return problems + p2
+        from core import py2lean_select                      # isdtime / isctime / timebase (C05Pred)
+        p3, i3 = py2lean_select.regenerate(repo, leanproj.LEAN, "C05")
+        self.gen_info.update(i3)
+        return problems + p2 + p3
     exhaustive = True
     exhaustive_quick = False
     externals = []
@@ -957,4 +961,5 @@ class C05(Family):
         return out
 
 
-FAMILY = C05
+from families import select_streams as _sel      # direct stream for the timebase predicates
+FAMILY = _sel.extend(C05, _sel.DtPredStream())
